@@ -157,6 +157,12 @@ func (e *kvElection) handleWatchEvent(entry Entry) {
 	if e.IsLeader() {
 		// If the new leader ID is different, we've been taken over
 		if newLeaderID != e.cfg.InstanceID {
+			// A record that replaced ours always has a higher revision than our
+			// latest write. Anything else is a late notification about a previous
+			// leader's record and must not demote the current term.
+			if entry.Revision() <= e.revision.Load() {
+				return
+			}
 			log := e.getLogger()
 			log.Warn("leadership_lost_via_watcher",
 				append(e.logWithContext(e.ctx),
